@@ -12,6 +12,7 @@ import (
 	"os"
 	"os/exec"
 	"path/filepath"
+	"reflect"
 	"sort"
 	"strings"
 
@@ -198,10 +199,15 @@ func checkC14(c *Ctx) {
 						break
 					}
 				}
-				bad := []string{devs[r.Intn(len(devs))], "unknown.org/dev=none"}
+				bad := []string{devs[r.Intn(len(devs))], "unknown.org/dev=none", devs[r.Intn(len(devs))]}
+				asked := append([]string{}, bad...)
 				var rerr error
 				if pv, st := guard(func() { _, rerr = cache.InjectDevices(genOCI(r), bad...) }); pv != nil {
 					cs.Violation("panic", nil, fmt.Sprintf("InjectDevices%v panics: %v", bad, pv), map[string]any{"stack": st})
+					return
+				}
+				if !reflect.DeepEqual(bad, asked) {
+					cs.Violation("request-modified", map[string]string{"op": "refused-injection"}, fmt.Sprintf("a refused InjectDevices changed the caller's list of device names from %q to %q", asked, bad), map[string]any{"population": p.Describe(), "history": history})
 					return
 				}
 				history = append(history, fmt.Sprintf("a Spec file appears behind the cache; refused InjectDevices%v", bad))
@@ -236,7 +242,14 @@ func checkC14(c *Ctx) {
 					}
 					appendEdits(&expected, &cloneSpec(&specs.Spec{Devices: []specs.Device{w.Dev}}).Devices[0].ContainerEdits)
 				}
-				run = func(o *oci.Spec) error { _, err := cache.InjectDevices(o, req...); return err }
+				asked := append([]string{}, req...)
+				run = func(o *oci.Spec) error {
+					_, err := cache.InjectDevices(o, req...)
+					if !reflect.DeepEqual(req, asked) {
+						return fmt.Errorf("REQUEST-MODIFIED: the caller's list of device names changed from %q to %q", asked, req)
+					}
+					return err
+				}
 				desc = fmt.Sprintf("InjectDevices%v", req)
 				sig = append(sig, "I")
 			case kind == 2: // Device.ApplyEdits
@@ -269,6 +282,12 @@ func checkC14(c *Ctx) {
 				return
 			}
 			c.Count("operations", 1)
+			for _, e := range []error{e1, e2} {
+				if e != nil && strings.HasPrefix(e.Error(), "REQUEST-MODIFIED") {
+					cs.Violation("request-modified", nil, desc+": "+e.Error(), wit())
+					return
+				}
+			}
 			pristine := cloneSpec(&specs.Spec{ContainerEdits: expected}).ContainerEdits
 			// host-resolved attributes are computed by the harness's own lstat-based model
 			// (mFill), so that a library that remembers host information cannot be its own oracle
